@@ -18,7 +18,7 @@ RULE = ("WAL histories as in C02; for every rowid table (and every index, for th
 ASSUMPTIONS = ["md5 is collision-free on the cell byte strings seen (the model compares the byte strings themselves)",
                "the database file predates the log's frames (passive-checkpoint histories are not used here)"]
 
-KINDS = ["plain", "overflow_inplace", "ddl", "rootmove", "spill", "grow_shrink", "plain", "checkpoint_restart", "header_pragmas", "rootmove", "fresh_wal", "odd_rowids"]
+KINDS = ["plain", "flipflop", "overflow_inplace", "ddl", "rootmove", "spill", "grow_shrink", "plain", "checkpoint_restart", "header_pragmas", "rootmove", "fresh_wal", "odd_rowids"]
 
 
 def check_table(ctx, h, name, kind, case):
